@@ -531,6 +531,19 @@ macro_rules! variant {
                     #[allow(unreachable_code)]
                     None
                 }
+                fn mock_de_hint(&self, _human: bool) -> Option<String> {
+                    #[cfg(feature = "t-serde")]
+                    {
+                        use serde::Deserialize;
+                        let hint = Cell::new("");
+                        let script = vcheck::mockserde::DeScript { human: _human, event: vcheck::mockserde::DeEvent::Unit };
+                        let d = vcheck::mockserde::MockDeserializer::new(&script, &hint);
+                        let _ = T::deserialize(d);
+                        return Some(hint.get().to_string());
+                    }
+                    #[allow(unreachable_code)]
+                    None
+                }
                 fn mock_de_allocs(&self, _script: &vcheck::mockserde::DeScript) -> Option<(bool, u64)> {
                     #[cfg(feature = "t-serde")]
                     {
